@@ -29,6 +29,7 @@ func checkC10(c *Ctx) {
 
 	c.Rule("C10/R7", "unit class over characters, not bytes (same rule as C04/R8): no unicode predicate in benchunit is applied to a lone byte widened to a rune")
 	p := mustLoad(c, loadOpts{}, "./benchunit")
+	c10Slots, c10SlotDec = map[string]int64{}, map[string]string{}
 	c10Ladders(c, p)
 	c10Select(c, p)
 	c10Format(c, p)
@@ -465,6 +466,13 @@ func c10Ladders(c *Ctx, p *Prog) {
 	}
 }
 
+// c10Slots: threshold slot (field name, or "field[k]") -> the number of decimals its boundary selects; c10SlotDec: -> the
+// boundary's decimal text. Filled by c10Thresholds from the table constructors, read by c10Select.
+var (
+	c10Slots   map[string]int64
+	c10SlotDec map[string]string
+)
+
 func c10Thresholds(c *Ctx, p *Prog, fn *ssa.Function, kind string) {
 	// Sprintf literal -> ParseFloat -> field of factor
 	site := p.pos(fn.Pos())
@@ -474,12 +482,40 @@ func c10Thresholds(c *Ctx, p *Prog, fn *ssa.Function, kind string) {
 		expArg ssa.Value // the operand printed into the literal's %d
 	}
 	var ths []thr
+	// the slot a parsed threshold is stored in: a field of the factor, or element k of an array field ("thresh[k]")
 	fieldOfResult := func(v ssa.Value) string {
 		field := ""
 		for _, r := range *v.Referrers() {
-			if st, ok := r.(*ssa.Store); ok {
-				if f, _ := fieldOfAddr(st.Addr); f != nil {
-					field = f.Name()
+			st, ok := r.(*ssa.Store)
+			if !ok {
+				continue
+			}
+			if f, _ := fieldOfAddr(st.Addr); f != nil {
+				field = f.Name()
+			}
+			ia, ok := st.Addr.(*ssa.IndexAddr)
+			if !ok {
+				continue
+			}
+			k, isK := constInt(ia.Index)
+			if !isK {
+				continue
+			}
+			if f, _ := fieldOfAddr(ia.X); f != nil {
+				field = fmt.Sprintf("%s[%d]", f.Name(), k)
+			}
+			if al, ok := ia.X.(*ssa.Alloc); ok {
+				// a composite literal built in a temporary and copied into the field
+				for _, r2 := range *al.Referrers() {
+					if ld, ok := r2.(*ssa.UnOp); ok && ld.Op == token.MUL {
+						for _, r3 := range *ld.Referrers() {
+							if st2, ok := r3.(*ssa.Store); ok && st2.Val == ssa.Value(ld) {
+								if f, _ := fieldOfAddr(st2.Addr); f != nil {
+									field = fmt.Sprintf("%s[%d]", f.Name(), k)
+								}
+							}
+						}
+					}
 				}
 			}
 		}
@@ -537,35 +573,70 @@ func c10Thresholds(c *Ctx, p *Prog, fn *ssa.Function, kind string) {
 			ths = append(ths, thr{lit, fieldOfResult(call), call.Call.Args[1]})
 		}
 	})
-	want := map[string]string{"t100": "99.995", "t10": "9.9995", "t1": ".99995"}
+	// the three rounding boundaries and the number of decimals each one selects
+	bounds := []struct {
+		dec  string
+		prec int64
+	}{{"99.995", 1}, {"9.9995", 2}, {".99995", 3}}
+	norm := func(x float64) float64 {
+		for x >= 2 {
+			x /= 2
+		}
+		for x < 1 && x > 0 {
+			x *= 2
+		}
+		return x
+	}
 	for _, t := range ths {
 		m := expFmt.FindStringSubmatch(t.lit)
 		key := fmt.Sprintf("%s:threshold %s", fnName(fn), t.field)
-		if m == nil || want[t.field] == "" {
+		if m == nil || t.field == "" {
 			c.Undecided("C10/R2", key, site, fmt.Sprintf("threshold literal %q / field %q not recognised", t.lit, t.field))
 			continue
 		}
-		dec := want[t.field]
-		// the literal's mantissa must denote dec: exactly for decimal, as the nearest double for hex
-		if m[2] == "e" {
-			a, _ := new(big.Rat).SetString(m[1])
-			b, _ := new(big.Rat).SetString(dec)
-			c.Check(a != nil && a.Cmp(b) == 0, "C10/R2", key, site, "mantissa "+m[1]+" is the rounding boundary "+dec, fmt.Sprintf("the %s threshold's mantissa is %s; the boundary at which the printed mantissa gains a digit is %s", t.field, m[1], dec))
-		} else {
-			hv, err1 := strconv.ParseFloat(m[1]+"p0", 64)
-			dv, err2 := strconv.ParseFloat(dec, 64)
-			// the hex mantissa carries its own scale: 99.995 = 0x1.8ff..p6, so compare after normalising both to [1,2)
-			norm := func(x float64) float64 {
-				for x >= 2 {
-					x /= 2
+		// which boundary the literal's mantissa denotes: exactly for decimal, as the nearest double for hex
+		// (the hex mantissa carries its own scale: 99.995 = 0x1.8ff..p6, so compare after normalising both to [1,2))
+		dec, prec := "", int64(0)
+		for _, bd := range bounds {
+			if m[2] == "e" {
+				a, _ := new(big.Rat).SetString(m[1])
+				b, _ := new(big.Rat).SetString(bd.dec)
+				if a != nil && a.Cmp(b) == 0 {
+					dec, prec = bd.dec, bd.prec
 				}
-				for x < 1 {
-					x *= 2
+			} else {
+				hv, err1 := strconv.ParseFloat(m[1]+"p0", 64)
+				dv, _ := strconv.ParseFloat(bd.dec, 64)
+				if err1 == nil && norm(hv) == norm(dv) {
+					dec, prec = bd.dec, bd.prec
 				}
-				return x
 			}
-			c.Check(err1 == nil && err2 == nil && norm(hv) == norm(dv), "C10/R3", key, site, "hex mantissa "+m[1]+" is the correctly rounded double of "+dec,
-				fmt.Sprintf("the binary %s threshold's mantissa %s is not the double nearest to %s", t.field, m[1], dec))
+		}
+		rule := "C10/R2"
+		if m[2] != "e" {
+			rule = "C10/R3"
+		}
+		if dec == "" {
+			if m[2] == "e" {
+				c.Bad(rule, key, site, fmt.Sprintf("the threshold's mantissa is %s; the boundaries at which the printed mantissa gains a digit are 99.995, 9.9995 and .99995", m[1]))
+			} else {
+				c.Bad(rule, key, site, fmt.Sprintf("the binary threshold's mantissa %s is not the double nearest to 99.995, 9.9995 or .99995", m[1]))
+			}
+			continue
+		}
+		if m[2] == "e" {
+			c.OK(rule, key, site, "mantissa "+m[1]+" is the rounding boundary "+dec)
+		} else {
+			c.OK(rule, key, site, "hex mantissa "+m[1]+" is the correctly rounded double of "+dec)
+		}
+		// every constructor must put the same boundary into a slot: CommonScale reads both tables the same way
+		if prev, dup := c10Slots[t.field]; dup && prev != prec {
+			c.Bad("C10/R2", key+":agrees", site, fmt.Sprintf("slot %s holds the boundary selecting %d decimals here and the one selecting %d decimals in the other table", t.field, prec, prev))
+		}
+		c10Slots[t.field] = prec
+		c10SlotDec[t.field] = dec
+		if m[2] != "e" {
+			dv, _ := strconv.ParseFloat(dec, 64)
 			// and its binary exponent offset: value = mantissa * 2^(off+exp) must equal dec * 2^exp: off = floor(log2(dec))
 			off := 0
 			for x := dv; x >= 2; x /= 2 {
@@ -587,6 +658,20 @@ func c10Thresholds(c *Ctx, p *Prog, fn *ssa.Function, kind string) {
 			c.Check(got == int64(off), "C10/R3", key+":exponent-offset", site, fmt.Sprintf("scaled by 2^(%d+exp)", off), fmt.Sprintf("the %s threshold is scaled by 2^(%d+exp); %s needs 2^(%d+exp)", t.field, got, dec, off))
 		}
 	}
+	// each boundary is stored exactly once per prefix
+	if len(ths) == 3 {
+		got := map[int64]int{}
+		for _, t := range ths {
+			if pr, ok := c10Slots[t.field]; ok {
+				got[pr]++
+			}
+		}
+		for _, bd := range bounds {
+			if got[bd.prec] > 1 {
+				c.Bad("C10/R2", fmt.Sprintf("%s:boundary %s", fnName(fn), bd.dec), site, fmt.Sprintf("the boundary %s is stored in %d thresholds: one precision can never be selected", bd.dec, got[bd.prec]))
+			}
+		}
+	}
 	if kind != "" && len(ths) != 3 {
 		c.Undecided("C10/R2", fnName(fn)+":thresholds", site, fmt.Sprintf("expected three thresholds per prefix, found %d", len(ths)))
 	}
@@ -602,7 +687,11 @@ func c10Select(c *Ctx, p *Prog) {
 	site := p.pos(fn.Pos())
 	precF := p.Field("benchunit", "Scaler", "Prec")
 	// (a) threshold -> precision, inclusive
-	want := map[string]int64{"t100": 1, "t10": 2, "t1": 3}
+	want := c10Slots
+	if len(want) != 3 {
+		c.Undecided(R, "CommonScale:slots", site, fmt.Sprintf("expected three threshold slots from the table constructors, found %d", len(want)))
+		return
+	}
 	seen := map[string]bool{}
 	order := []string{}
 	// the threshold comparisons may sit in CommonScale or in a helper of the package it calls
@@ -624,65 +713,151 @@ func c10Select(c *Ctx, p *Prog) {
 		}
 		return nil
 	}
+	// slotsOf: the threshold slots an operand may denote, in the order they are visited, each with the value of the index
+	// variable at that visit: a named field is one slot; an element of an array field is slot k for a constant index, or
+	// every slot first..last in turn when the index is the counter of an ascending loop
+	type visit struct {
+		slot string
+		idx  ssa.Value // the counter (nil for a fixed slot)
+		k    int64
+	}
+	slotsOf := func(v ssa.Value) []visit {
+		if f := fieldOf(v); f != nil {
+			if _, ok := want[f.Name()]; ok {
+				return []visit{{f.Name(), nil, 0}}
+			}
+			return nil
+		}
+		var arr, idx ssa.Value
+		switch x := stripConv(v).(type) {
+		case *ssa.Index:
+			arr, idx = x.X, x.Index
+		case *ssa.UnOp:
+			if ia, ok := x.X.(*ssa.IndexAddr); ok && x.Op == token.MUL {
+				arr, idx = ia.X, ia.Index
+			}
+		}
+		if arr == nil {
+			return nil
+		}
+		f := fieldOf(arr)
+		if f == nil {
+			f, _ = fieldOfAddr(arr)
+		}
+		if f == nil {
+			return nil
+		}
+		if _, ok := want[f.Name()+"[0]"]; !ok {
+			return nil
+		}
+		if k, ok := constInt(idx); ok {
+			return []visit{{fmt.Sprintf("%s[%d]", f.Name(), k), nil, k}}
+		}
+		first, last, ok := countedLoop(idx)
+		if !ok {
+			return []visit{{f.Name() + "[?]", idx, -1}}
+		}
+		var out []visit
+		for k := first; k <= last && k < first+16; k++ {
+			out = append(out, visit{fmt.Sprintf("%s[%d]", f.Name(), k), idx, k})
+		}
+		return out
+	}
+	// intAt: the value of an integer expression when the counter idx is k
+	var intAt func(v ssa.Value, idx ssa.Value, k int64) (int64, bool)
+	intAt = func(v ssa.Value, idx ssa.Value, k int64) (int64, bool) {
+		if idx != nil && v == idx {
+			return k, true
+		}
+		if n, ok := constInt(v); ok {
+			return n, true
+		}
+		if bo, ok := v.(*ssa.BinOp); ok && (bo.Op == token.ADD || bo.Op == token.SUB) {
+			x, ok1 := intAt(bo.X, idx, k)
+			y, ok2 := intAt(bo.Y, idx, k)
+			if ok1 && ok2 {
+				if bo.Op == token.ADD {
+					return x + y, true
+				}
+				return x - y, true
+			}
+		}
+		// the counter of a range loop is phi+1; a use of the phi itself is one behind
+		if idx != nil {
+			if inc, ok := idx.(*ssa.BinOp); ok && v == inc.X {
+				if step, ok := constInt(inc.Y); ok {
+					return k - step, true
+				}
+			}
+		}
+		return 0, false
+	}
 	for _, tf := range thrFns {
 		eachInstr(tf, func(_ *ssa.BasicBlock, in ssa.Instruction) {
 			bo, ok := in.(*ssa.BinOp)
 			if !ok {
 				return
 			}
-			f := fieldOf(bo.Y)
-			g := fieldOf(bo.X)
-			var fld *types.Var
-			inclusive := false
-			switch {
-			case f != nil && want[f.Name()] != 0:
-				fld = f
-				inclusive = bo.Op == token.GEQ // min >= t
-				if bo.Op == token.GTR {
-					inclusive = false
-				}
-			case g != nil && want[g.Name()] != 0:
-				fld = g
-				inclusive = bo.Op == token.LEQ // t <= min
-			default:
-				return
-			}
 			if bo.Op != token.GEQ && bo.Op != token.GTR && bo.Op != token.LEQ && bo.Op != token.LSS {
 				return
 			}
-			seen[fld.Name()] = true
-			order = append(order, fld.Name())
-			// the precision returned on the true edge
-			var prec int64 = -99
-			for _, r := range *bo.Referrers() {
-				if ifi, ok := r.(*ssa.If); ok {
-					tb := ifi.Block().Succs[0]
-					for _, in2 := range tb.Instrs {
-						if st, ok := in2.(*ssa.Store); ok {
-							if pf, _ := fieldOfAddr(st.Addr); pf == precF {
-								prec, _ = constInt(st.Val)
+			var visits []visit
+			inclusive := false
+			if vs := slotsOf(bo.Y); vs != nil {
+				visits = vs
+				inclusive = bo.Op == token.GEQ // min >= t
+			} else if vs := slotsOf(bo.X); vs != nil {
+				visits = vs
+				inclusive = bo.Op == token.LEQ // t <= min
+			} else {
+				return
+			}
+			for _, vis := range visits {
+				if vis.k < 0 {
+					c.Undecided(R, "CommonScale:"+vis.slot, p.pos(bo.Pos()), "a threshold is selected by an index that is not the counter of an ascending loop over the thresholds")
+					continue
+				}
+				wantPrec, known := want[vis.slot]
+				if !known {
+					c.Bad(R, "CommonScale:"+vis.slot, p.pos(bo.Pos()), "the comparison reads threshold "+vis.slot+", which no table constructor fills")
+					continue
+				}
+				seen[vis.slot] = true
+				order = append(order, c10SlotDec[vis.slot])
+				// the precision returned on the true edge
+				var prec int64 = -99
+				for _, r := range *bo.Referrers() {
+					if ifi, ok := r.(*ssa.If); ok {
+						tb := ifi.Block().Succs[0]
+						for _, in2 := range tb.Instrs {
+							if st, ok := in2.(*ssa.Store); ok {
+								if pf, _ := fieldOfAddr(st.Addr); pf == precF {
+									if k, ok := intAt(st.Val, vis.idx, vis.k); ok {
+										prec = k
+									}
+								}
 							}
-						}
-						// a helper returns the precision instead of storing it
-						if ret, ok := in2.(*ssa.Return); ok && tf != fn && len(ret.Results) >= 1 {
-							if k, ok := constInt(retVal(ret, 0)); ok {
-								prec = k
+							// a helper returns the precision instead of storing it
+							if ret, ok := in2.(*ssa.Return); ok && tf != fn && len(ret.Results) >= 1 {
+								if k, ok := intAt(retVal(ret, 0), vis.idx, vis.k); ok {
+									prec = k
+								}
 							}
 						}
 					}
 				}
+				key := "CommonScale:" + vis.slot
+				c.Check(inclusive && prec == wantPrec, R, key, p.pos(bo.Pos()), fmt.Sprintf("min >= %s (the boundary %s) selects %d decimals", vis.slot, c10SlotDec[vis.slot], prec),
+					fmt.Sprintf("threshold %s, which holds the boundary %s, selects %d decimals through a %s comparison; documented: inclusive comparison selecting %d (the threshold is the least value that rounds up, so it belongs to the coarser precision; otherwise 999.95 prints as 1000.0 or 0.9999k)", vis.slot, c10SlotDec[vis.slot], prec, bo.Op, wantPrec))
 			}
-			key := "CommonScale:" + fld.Name()
-			c.Check(inclusive && prec == want[fld.Name()], R, key, p.pos(bo.Pos()), fmt.Sprintf("min >= %s selects %d decimals", fld.Name(), prec),
-				fmt.Sprintf("threshold %s selects %d decimals through a %s comparison; documented: inclusive comparison selecting %d (the threshold is the least value that rounds up, so it belongs to the coarser precision; otherwise 999.95 prints as 1000.0 or 0.9999k)", fld.Name(), prec, bo.Op, want[fld.Name()]))
 		})
 	}
-	for k := range want {
+	for _, k := range sortedKeys(want) {
 		if !seen[k] {
 			c.Bad(R, "CommonScale:"+k, site, "threshold "+k+" is never consulted")
 		}
 	}
-	c.Check(strings.Join(order, ",") == "t100,t10,t1", R, "CommonScale:threshold-order", site, "thresholds are tried from coarse to fine", fmt.Sprintf("thresholds are tried in the order %v, must be t100, t10, t1", order))
+	c.Check(strings.Join(order, ",") == "99.995,9.9995,.99995", R, "CommonScale:threshold-order", site, "thresholds are tried from coarse to fine", fmt.Sprintf("thresholds are tried in the order %v, must be 99.995, 9.9995, .99995", order))
 	// (b) minimum over absolute non-zero values: the loop (in CommonScale or in a helper of the package it calls)
 	// that takes math.Abs of the values
 	var lp *loopInfo
